@@ -987,6 +987,76 @@ fn swap_history() -> Option<String> {
     None
 }
 
+/// kind 7: ( 7 tag0 n ( (pos kind tag m) ... ) ) - a flush pass over a configuration of `n` appenders (table `tag0`);
+/// while appender `pos` is flushed a configuration of `m` appenders (table `tag`) is installed: kind 0 by that
+/// appender's own flush(), kind 1 by ANOTHER thread before the appender's flush() returns.  Then a second pass.
+/// Result ( ((tag i) ...) ((tag i) ...) ): the flush calls of the first and of the second pass, in order.
+fn run_flush(c: &[Val]) -> Val {
+    type Events = Arc<Mutex<Vec<(u128, u128)>>>;
+    type Slot = Arc<Mutex<Option<log4rs::Handle>>>;
+    #[derive(Debug)]
+    struct FA {
+        tag: u128,
+        i: u128,
+        ev: Events,
+        slot: Slot,
+        install: Mutex<Option<(bool, Config)>>,
+    }
+    impl Append for FA {
+        fn append(&self, _r: &log::Record) -> anyhow::Result<()> {
+            Ok(())
+        }
+        fn flush(&self) {
+            self.ev.lock().unwrap().push((self.tag, self.i));
+            let armed = self.install.lock().unwrap().take();
+            if let Some((foreign, cfg)) = armed {
+                let h = self.slot.lock().unwrap().clone().expect("handle");
+                if foreign {
+                    std::thread::spawn(move || h.set_config(cfg)).join().expect("foreign set_config");
+                } else {
+                    h.set_config(cfg);
+                }
+            }
+        }
+    }
+    let ev: Events = Arc::new(Mutex::new(vec![]));
+    let slot: Slot = Arc::new(Mutex::new(None));
+    let mk = |tag: u128, n: usize, insts_taken: &mut Vec<Option<(bool, Config)>>| -> Config {
+        let mut b = Config::builder();
+        let mut root = Root::builder();
+        for i in 0..n {
+            let install = if i < insts_taken.len() { insts_taken[i].take() } else { None };
+            let a = FA { tag, i: i as u128, ev: ev.clone(), slot: slot.clone(), install: Mutex::new(install) };
+            b = b.appender(Appender::builder().build(format!("w{}", i), Box::new(a)));
+            root = root.appender(format!("w{}", i));
+        }
+        b.build(root.build(log::LevelFilter::Trace)).expect("config")
+    };
+    let tag0 = c[1].n();
+    let n = c[2].u();
+    // the configurations to be installed (plain appenders: they install nothing themselves)
+    let mut per_pos: Vec<Option<(bool, Config)>> = (0..n).map(|_| None).collect();
+    for inst in c[3].l() {
+        let inst = inst.l();
+        let (pos, foreign, tag, m) = (inst[0].u(), inst[1].n() == 1, inst[2].n(), inst[3].u());
+        let cfg = mk(tag, m, &mut vec![]);
+        if pos < n && per_pos[pos].is_none() {
+            per_pos[pos] = Some((foreign, cfg));
+        }
+    }
+    let lg = log4rs::Logger::new(mk(tag0, n, &mut per_pos));
+    *slot.lock().unwrap() = Some(lg.verif_handle());
+    let p1 = std::panic::catch_unwind(std::panic::AssertUnwindSafe(|| Log::flush(&lg)));
+    let cut = ev.lock().unwrap().len();
+    let p2 = std::panic::catch_unwind(std::panic::AssertUnwindSafe(|| Log::flush(&lg)));
+    if p1.is_err() || p2.is_err() {
+        return Val::panic();
+    }
+    let all = ev.lock().unwrap().clone();
+    let enc = |xs: &[(u128, u128)]| Val::L(xs.iter().map(|(t, i)| Val::L(vec![Val::N(*t), Val::N(*i)])).collect());
+    Val::L(vec![enc(&all[..cut]), enc(&all[cut..])])
+}
+
 fn run(case: &Val) -> Val {
     if let Some(bad) = swap_history() {
         return Val::L(vec![Val::text(&bad)]);
@@ -997,6 +1067,7 @@ fn run(case: &Val) -> Val {
         1 => run_stress(c),
         2 => run_drop(c),
         3 => run_reload(c),
+        7 => run_flush(c),
         _ => Val::text("live-case-needs-child"),
     }
 }
